@@ -253,6 +253,11 @@ func (st *c45state) run(in *caseIn, kind, op string) (*caseOut, bool) {
 		w := wit()
 		w["reason"] = errZeroSpin.Error()
 		m.Violation("hang:"+p.curEntry(), w)
+		if st.hangs++; st.hangs >= 3 {
+			st.aborted = true
+			m.Note("child stopped after three non-terminating reads")
+			return nil, false
+		}
 	}
 	m.Distinct(in.Entry + "|" + kind + "|" + opClass(op) + "|" + out.Class)
 	if out.BodyRead && !out.Capped {
